@@ -11,9 +11,11 @@ package c08dhcp
 // buffer with that many bytes behind the payload (the server encodes its reply in place), through Session.Parse
 // and Handler.ProcessPacket.  The part from `@` on is written by Eval: the canonical time, the configuration and
 // the state the implementation was in before each event (dumped after Parse of the frame) — the model runs
-// every event from the implementation's own pre-state.  Compared per event: returned error class, allocation
-// cursors, lease table, replies (type, yiaddr, ciaddr, xid, chaddr, broadcast, options), and in the client
-// direction whether a forged DECLINE went out.
+// every event from the implementation's own pre-state — and, after `#`, per event the option codes of the
+// implementation's reply in wire order (`-`: no reply): the Go map iteration order the model's `replyBytes` is run
+// with.  Compared per event: returned error class, allocation cursors, lease table, replies (type, yiaddr, ciaddr,
+// xid, chaddr, broadcast, options), in the client direction whether a forged DECLINE went out, and `bytes=`: the
+// reply's DHCP message BYTE FOR BYTE (the UDP payload of the frame written) against Model.Dhcp4Frame.replyBytes.
 
 import (
 	"bytes"
@@ -126,18 +128,78 @@ func isForgedDecline(fr []byte) bool {
 	return false
 }
 
+// wireCheck: the reply's DHCP message read with offsets only (RFC 2131 figure 1), against the request payload it
+// answers: BOOTREPLY, Ethernet, hlen 6, hops / secs / flags / siaddr / giaddr zero, the request's xid and chaddr,
+// chaddr padding / sname / file zero, the magic cookie, well-formed options ending with the end option and zero
+// padding, at least 300 bytes, the subnet mask (when present) as the first option.  "" = fine.
+func wireCheck(req, rep []byte) string {
+	if len(rep) < 300 {
+		return fmt.Sprintf("%d bytes (BOOTP minimum is 300)", len(rep))
+	}
+	if len(req) < 240 {
+		return "reply to a request shorter than 240 bytes"
+	}
+	if rep[0] != 2 || rep[1] != 1 || rep[2] != 6 || rep[3] != 0 {
+		return fmt.Sprintf("op/htype/hlen/hops = % x, want 02 01 06 00", rep[0:4])
+	}
+	if !bytes.Equal(rep[4:8], req[4:8]) {
+		return fmt.Sprintf("xid %x, the request has %x", rep[4:8], req[4:8])
+	}
+	if !bytes.Equal(rep[28:34], req[28:34]) {
+		return fmt.Sprintf("chaddr %x, the request has %x", rep[28:34], req[28:34])
+	}
+	for i, b := range rep[:236] {
+		if b != 0 && (i >= 8 && i < 12 || i >= 20 && i < 28 || i >= 34) {
+			return fmt.Sprintf("byte %d = %#x (secs / flags / siaddr / giaddr / chaddr padding / sname / file must be zero)", i, b)
+		}
+	}
+	if !bytes.Equal(rep[236:240], []byte{99, 130, 83, 99}) {
+		return fmt.Sprintf("magic cookie % x", rep[236:240])
+	}
+	o := rep[240:]
+	first := true
+	for {
+		if len(o) == 0 {
+			return "no end option"
+		}
+		if o[0] == 255 {
+			o = o[1:]
+			break
+		}
+		if o[0] == 0 {
+			return "pad option inside the option area"
+		}
+		if len(o) < 2 || len(o) < 2+int(o[1]) {
+			return "option runs past the end of the message"
+		}
+		if o[0] == 1 && !first {
+			return "subnet mask is not the first option"
+		}
+		first = false
+		o = o[2+int(o[1]):]
+	}
+	for _, b := range o {
+		if b != 0 {
+			return "non-zero padding after the end option"
+		}
+	}
+	return ""
+}
+
 type rawStep struct {
-	dest    string // a reply that did not go where the request came from ("" = fine)
+	dest    string // a reply that did not go where the request came from, or whose bytes are malformed ("" = fine)
 	impl    string // canonical result of the event ("" = frame not dispatched to the handler)
 	pre     string
 	cfg     string
 	replies []*c11.Reply
 	why     string
+	ord     string // option codes of the reply in wire order (hex; "-" without a reply): the map iteration order the model is run with
 }
 
 // runRawEv runs one event on the world.
 func runRawEv(w *c11.World, e rawEv) rawStep {
 	var st rawStep
+	st.ord = "-"
 	frame, buf := rawFrame(e)
 	srcMAC := append([]byte{}, frame[6:12]...) // the buffer is overwritten after the call
 	fr, err := w.S.Parse(frame)
@@ -170,10 +232,18 @@ func runRawEv(w *c11.World, e rawEv) rawStep {
 		time.Sleep(10 * time.Microsecond)
 	}
 	declines := 0
-	var reps []string
+	var reps, raws []string
+	st.ord = "-"
 	for _, f := range w.Conn.Take() {
 		if r, ok := c11.DecodeReply(f); ok {
 			st.replies = append(st.replies, r)
+			raws = append(raws, core.Hex(r.Raw))
+			if bad := wireCheck(e.p, r.Raw); bad != "" {
+				st.dest = "reply bytes: " + bad
+			}
+			if len(st.replies) == 1 {
+				st.ord = core.Hex(r.Order)
+			}
 			s := r.String()
 			if r.Bad != "" {
 				s += "!" + strings.ReplaceAll(r.Bad, " ", "_")
@@ -209,7 +279,11 @@ func runRawEv(w *c11.World, e rawEv) rawStep {
 	if e.dir == "s" {
 		decl = strconv.Itoa(declines)
 	}
-	st.impl = fmt.Sprintf("%s %s|%s|%s decl=%s", res, pf[0], ls, rs, decl)
+	bs := "-"
+	if len(raws) > 0 {
+		bs = strings.Join(raws, ",")
+	}
+	st.impl = fmt.Sprintf("%s %s|%s|%s decl=%s bytes=%s", res, pf[0], ls, rs, decl, bs)
 	if bad != "" {
 		st.impl += " BAD:" + strings.ReplaceAll(bad, " ", "_")
 	}
@@ -259,7 +333,7 @@ func evalRaw(c *core.Ctx, f []string) *core.Case {
 		return &core.Case{Line: line, Impl: "err construct", Cmp: func(string, string) bool { return true },
 			Oracle: func() (string, string) { return why, "" }}
 	}
-	var impls, pres, done []string
+	var impls, pres, done, ords []string
 	dest := ""
 	cfg := ""
 	trivial := true
@@ -279,6 +353,7 @@ func evalRaw(c *core.Ctx, f []string) *core.Case {
 		}
 		impls = append(impls, st.impl)
 		pres = append(pres, st.pre)
+		ords = append(ords, st.ord)
 		done = append(done, e.String())
 		if len(e.p) >= 240 {
 			trivial = false
@@ -290,14 +365,14 @@ func evalRaw(c *core.Ctx, f []string) *core.Case {
 		}
 	}
 	rawStats(c, impls)
-	line := fmt.Sprintf("dhcp.raw %d %d %s %s @ %d %s %s", cfgIdx, mode, f[3], strings.Join(done, ";"), c11.NowH*c11.Hour, cfg, strings.Join(pres, " "))
+	line := fmt.Sprintf("dhcp.raw %d %d %s %s @ %d %s %s # %s", cfgIdx, mode, f[3], strings.Join(done, ";"), c11.NowH*c11.Hour, cfg, strings.Join(pres, " "), strings.Join(ords, " "))
 	return &core.Case{Line: line, Impl: strings.Join(impls, " / "), Trivial: trivial,
 		Oracle: func() (string, string) {
 			if broken != "" {
 				return "dhcp4.ProcessPacket: the call did not return normally (" + broken + ") on a raw payload", ""
 			}
 			if dest != "" {
-				return "dhcp4 reply destination: " + dest, ""
+				return "dhcp4 reply on the wire: " + dest, ""
 			}
 			return "", ""
 		}}
@@ -433,7 +508,11 @@ func (g *rawGen) clean() rawEv {
 	}
 	opts = append(opts, opt(53, mt))
 	if r.Intn(2) == 0 {
-		opts = append(opts, opt(55, 1, 3, 6, 15, 121, 33))
+		prl := []byte{1, 3, 6, 15, 121, 33}
+		if r.Intn(2) == 0 { // any order: the reply's option order follows it, the subnet mask must still come first
+			r.Shuffle(len(prl), func(i, j int) { prl[i], prl[j] = prl[j], prl[i] })
+		}
+		opts = append(opts, opt(55, prl...))
 	}
 	if r.Intn(3) == 0 {
 		opts = append(opts, opt(12, []byte("host-"+strconv.Itoa(r.Intn(9)))...))
